@@ -163,10 +163,17 @@ def purity(report, sig_base, what, func, make_arg, allowed_shared, case, nontriv
     ids_before = set(containers(a1))
     try:
         r1 = func(a1)
-        r2 = func(a2)
-        r3 = func(a1)      # same argument object again
     except Exception:  # noqa: BLE001
         return False
+    try:
+        r2 = func(a2)
+        r3 = func(a1)      # same argument object again
+    except Exception as e:  # noqa: BLE001
+        report.case(case.get("key"), nontrivial=True, sample=lambda: {k: v for k, v in case.items() if k != "key"})
+        report.violation({**sig_base, "problem": "repeated_call_fails"},
+                         f"{what}: the first call returned {codec.show(r1, 60)}, a repeated call with an equal argument raised "
+                         f"{type(e).__name__}: {str(e)[:80]}", {k: v for k, v in case.items() if k != "key"})
+        return True
     c_arg = containers(a1)
     c1, c2, c3 = containers(r1), containers(r2), containers(r3)
     nontrivial = bool(c_arg or c1)
